@@ -56,16 +56,30 @@ def run(ctx):
             version = ctx.rnd.choice([4712, 4713])
             stats["programs"] += 1
             mode = i % 4
+            # a write_segment call that raises is skipped and the program goes on: such a call must be a no-op, so the file must be
+            # the valid file of the accepted calls (gen_writer.write_resilient)
             if mode == 3:
-                data, index, err = write_by_path(prog, nptdms, version, tmp)
+                p = os.path.join(tmp, "w.tdms")
+                for q in (p, p + "_index"):
+                    if os.path.exists(q):
+                        os.unlink(q)
+                prog, n_rej, err = gw.write_resilient(prog, nptdms, version, None, None, by_path=p)
+                data, index = (open(p, "rb").read(), open(p + "_index", "rb").read()) if os.path.exists(p) else (b"", b"")
                 stats["by_path"] += err is None
             elif mode == 2:
-                data, index, err = real_write(prog, nptdms, version, with_index=False)
-                index = None
+                d_ = io.BytesIO()
+                prog, n_rej, err = gw.write_resilient(prog, nptdms, version, d_, None)
+                data, index = d_.getvalue(), None
                 stats["no_index"] += err is None
             else:
-                data, index, err = real_write(prog, nptdms, version)
+                d_, i_ = io.BytesIO(), io.BytesIO()
+                prog, n_rej, err = gw.write_resilient(prog, nptdms, version, d_, i_)
+                data, index = d_.getvalue(), i_.getvalue()
+            stats["rejected_calls"] = stats.get("rejected_calls", 0) + n_rej
             if err is not None:
+                violations.append(Violation("TdmsWriter raised %s outside write_segment: %s" % (type(err).__name__, str(err)[:160]), dict(kind="written", program=gw.to_line(prog, version))))
+                continue
+            if not any(prog):
                 continue
             stats["accepted"] += 1
             line = gw.to_line(prog, version)
@@ -93,7 +107,7 @@ def run(ctx):
         shutil.rmtree(tmp, ignore_errors=True)
     return dict(violations=violations[:5], disagreements=disagreements[:20],
                 coverage=dict(evaluations=stats["programs"], distinct_nontrivial=len(nontrivial),
-                              rule="writer programs as in C07, written with index_file = stream (half), False (quarter), True on a path in append mode (quarter); the "
+                              rule="writer programs as in C07 (write_segment calls that raise are skipped and must be no-ops), written with index_file = stream (half), False (quarter), True on a path in append mode (quarter); the "
                                    "strict parser checks every emitted segment; non-trivial = distinct accepted programs containing non-empty string channels (the 28-byte "
                                    "index and offset tables)",
                               samples=samples or [dict(note="none short enough")], counts=stats))
